@@ -25,4 +25,12 @@ UNITS_LOCAL = {"C15": [
          budget={"quick": 60, "thorough": 600},
          rule="FixedBufferWriter of capacity 0..6 x every history of length <= 4 (thorough 6) over write(n) and reserve(n), n in {0,1,2,3}; model: accepted iff cursor+n <= capacity, a rejected call throws and writes nothing; available(), capacity(), cursor, getWrittenView() (size and bytes) and the whole buffer image compared after every step. distinct = distinct (capacity, last operation, threw, cursor) observations",
          assumptions=_ASSUME),
+    Unit("stream", ["harness/C15_cursor.cpp"], repo_src=_SRC,
+         flags=ASAN, env=ASAN_ENV, engine="seqmc", opt="-O1",
+         args={"quick": ["--part", "stream"], "thorough": ["--part", "stream"], "replay": ["--part", "stream"]},
+         budget={"quick": 60, "thorough": 600},
+         rule="one BufferWriter and one BufferReader on ONE shared buffer (the reader is constructed from writer.buffer): every history of length <= 5 (thorough 6) over 19 operations {writer.write of 0/1/2 fresh bytes, attach a new reader (cursor 0) at any point, read(size) and getView<uint8_t>(count) with sizes {0,1,2,remaining,remaining+1,SIZE_MAX}, shrink the shared OwnedArray by resize(size-1), resize(0), reset() while the reader is alive}; model = bytes currently in the buffer + cursor: a call of size >= 1 is accepted iff cursor+size <= current size (delivering exactly those bytes / a view starting at the cursor), otherwise it throws and the cursor stays; end() == (cursor >= current size) after every step incl. writer steps. distinct = distinct (last operation, threw, cursor, buffer size, end()) observations",
+         assumptions=_ASSUME + ["'the written data' of the statement is what the shared buffer holds at the time of the call (data appended after the reader was attached is readable; data removed by a shrink/reset is not)",
+                                "a size-0 read/view at a cursor that lies beyond a shrunken buffer is observed but not judged (the statement only speaks of reads extending past the data); it must not move the cursor",
+                                "a call the model rejects is given a null destination, a call it accepts a heap destination of exactly `size` bytes"]),
 ]}
